@@ -41,6 +41,10 @@ BlockTab ==
    urlT  |-> << D("URL", <<"paib">>, "", FALSE, "", ""), D("Tags", <<"@g1">>, "", FALSE, "", ""),
                 D("GET", <<>>, "", FALSE, "", ""), D("RESP", <<"any">>, "", FALSE, "", "200"),
                 D("POST", <<>>, "", FALSE, "", ""), D("Tags", <<"@g_2">>, "", FALSE, "", ""), D("RESP", <<"any">>, "", FALSE, "", "200") >>, \* URL-level and method-level Tags
+   \* a URL-level Tags written after the methods: only an explicit '( )' on the last method lets it reach the URL
+   urlTx |-> << D("URL", <<"pf">>, "", FALSE, "", ""), D("GET", <<>>, "", FALSE, "", ""), D("RESP", <<"any">>, "", FALSE, "", "200"),
+                D("POST", <<>>, "", TRUE, "", ""), D("RESP", <<"any">>, "", FALSE, "", "200"), CloseTok,
+                D("Tags", <<"@g1">>, "", FALSE, "", "") >>,                                                          \* needs tag1
    mac   |-> << D("MACRO", <<"@m1">>, "", TRUE, "", ""), D("RESP", <<"any">>, "from macro", FALSE, "", "200"),
                 D("Headers", <<>>, "", FALSE, "hdr", ""), CloseTok >>,
    useM  |-> << D("URL", <<"pb">>, "", FALSE, "", ""), D("GET", <<>>, "", FALSE, "", ""), D("PASTE", <<"@m1">>, "", FALSE, "", ""),
